@@ -76,12 +76,17 @@ def member_init_rule(prog, res, classes=None):
                 for dn in h.all_nodes({'DeclStmt'}):
                     for d_ in dn['decls']:
                         t_ = d_.get('type', '')
-                        if not ((q and re.search(r'\b%s\b' % re.escape(q), t_)) or (not q and tag in t_)):
+                        if not ((q and re.search(r'(?<![\w:])%s(?!\w)' % re.escape(q), t_)) or (not q and tag in t_)):
                             continue
                         uses += 1
                         iv = h.nodes[h.strip(d_['init'], 'noop')] if 'init' in d_ else None
                         if iv is None or (iv['k'] == 'CXXConstructExpr' and not iv.get('args') and not iv.get('list_init')):
                             bare = (h, dn['id'], d_['name'])
+            # objects with static storage: constant-initialised (a braced table) is defined; static storage without initialiser is zero-initialised
+            for s_ in prog.statics.values():
+                t_ = s_.get('type', '')
+                if (q and re.search(r'(?<![\w:])%s(?!\w)' % re.escape(q), t_)) or (not q and tag in t_):
+                    uses += 1
             if bare is None and (uses or not q):
                 res.ok('member-init', q or 'unnamed aggregate', '%s:%d' % (c['file'].replace(prog.repo + '/', ''), c['line']), 'aggregate without constructors: every object (%d) is created from a braced initialiser list' % uses,
                        function='', expr=(q or 'aggregate') + ':aggregate', nontrivial=False)
